@@ -360,8 +360,7 @@ def rrs_layer(ctx, repo, hdap_ci, hdap_stub):
         for e in confirms:
             d = sent_bytes(e)
             if not isinstance(d, ABits) or len(d.items) < 48:
-                conf_bad.append("confirm datagram not analysable")
-                continue
+                raise AnalysisError("the registration answer datagram is not an octet string the analysis can read (a serialiser that is not followed)")
             snb = I3.simp_bits(d.items[32:48])
             names = {I3.atoms.names[a][0] if isinstance(I3.atoms.names[a], tuple) else None for b in snb if isinstance(b, F) for a in b.atoms()}
             if getattr(d, "may_overflow", False) or not all(isinstance(b, F) for b in snb) or names - {"fn"}:
@@ -401,7 +400,7 @@ def _is_ack_datagram(I, e):
 def _check_heartbeat(I, e):
     tb, d = _type_byte(I, e)
     if tb is None:
-        return "heartbeat datagram not analysable"
+        raise AnalysisError("the echoed heartbeat datagram is not an octet string the analysis can read (a serialiser that is not followed)")
     want = [0, 0, 0, 0, 0, 0, 1, 0]
     if [b.c if isinstance(b, F) and b.is_const else None for b in tb] != want:
         return "echoed datagram is not a pure heartbeat"
@@ -414,7 +413,7 @@ def _check_heartbeat(I, e):
 def _check_ack(I, st, e):
     tb, d = _type_byte(I, e)
     if tb is None:
-        return "ack datagram not analysable"
+        raise AnalysisError("the acknowledgement datagram is not an octet string the analysis can read (a serialiser that is not followed)")
     if not (isinstance(tb[7], F) and tb[7].is_const and tb[7].c == 1):
         return "answer does not have the ack bit set"
     if not (isinstance(tb[3], F) and tb[3].is_const and tb[3].c == 0):
